@@ -256,6 +256,11 @@ func (c *Ctx) saveFailure(kind string, f *Failure, cs any, seed uint64) string {
 	e := envelope{Property: c.ID, Kind: kind, Sig: f.Sig, Msg: f.Msg, Seed: seed, Case: b}
 	out, _ := json.MarshalIndent(e, "", " ")
 	dir := filepath.Join(verifRoot, "replays", c.ID)
+	if d := os.Getenv("VERIF_FAILDIR"); d != "" {
+		// the driver collects failures per run and publishes them itself, so that concurrent runs of the
+		// same property (a background campaign and a sensitivity run) cannot mix up their files
+		dir = d
+	}
 	_ = os.MkdirAll(dir, 0o755)
 	name := sigSanitizer.ReplaceAllString(kind+"-"+f.Sig, "_")
 	if len(name) > 120 {
